@@ -148,7 +148,7 @@ Lemma twelve_sets_modified_signature :
   forall pkSeed pkRoot msg sig sig',
     verifyInternal P HS pkSeed pkRoot msg sig = true -> verifyInternal P HS pkSeed pkRoot msg sig' = true ->
     firstn (p_n P) sig = firstn (p_n P) sig' -> sig <> sig' ->
-    sig_switch P HS pkSeed pkRoot msg sig sig' = true \/ th_collision HS pkSeed.
+    sig_switch P HS pkSeed pkRoot msg sig sig' = true \/ located_collision P HS pkSeed pkRoot msg sig sig' = true.
 Proof.
   intros sha256 sha512 shake256 hmac256 hmac512 H1 H2 H3 H4 H5 W1 W2 W3 s Hs P HS.
   destruct (all_sets_wf s Hs) as [PW Hn].
